@@ -80,7 +80,7 @@ func c06PlanFor(seed, id uint64) c06BodyPlan {
 func init() {
 	core.Register(&core.Property{
 		ID: "C06",
-		Rule: "whole runs of generated scenario programs: setup registers 0-4 cleanups (each ok / panic / FailNow / Fail / panic(err)) and may fail or panic before, between or after them; every body registers 0-5 cleanups before/after its own failure point (19 behaviours) with faults of their own; endings: limit, duration, cancel from outside, cancel from inside iteration j, cancel from inside setup (with and without a setup fault), setup fault, completion-timeout expiry; all trigger modes. " +
+		Rule: "whole runs of generated scenario programs: setup registers 0-4 cleanups (each ok / panic / FailNow / Fail / panic(err)) and may fail or panic before, between or after them; every body registers 0-5 cleanups before/after its own failure point (19 behaviours) with faults of their own; endings: limit, duration, cancel from outside, cancel from inside iteration j, cancel from inside setup (with and without a setup fault), setup fault, completion-timeout expiry, a run longer than its completion timeout whose last iterations finish shortly after the end; all trigger modes. " +
 			"The event log is checked offline against the lifecycle order. non-trivial = the run had a faulting cleanup, a faulting body with cleanups, or a setup fault; distinct = distinct (mode, ending, setup-fault kind/pos, #setup cleanups, has-faulting-setup-cleanup) classes",
 		Assumptions: []string{"cleanups registered from inside a cleanup are outside the property and are not generated"},
 		Gen: func(tier string, seed uint64) []core.Case {
@@ -89,7 +89,7 @@ func init() {
 			if tier == "thorough" {
 				n = 800
 			}
-			endings := []string{"limit", "limit", "duration", "cancel-out", "cancel-in", "setupfault", "timeout", "cancel-setup"}
+			endings := []string{"limit", "limit", "duration", "cancel-out", "cancel-in", "setupfault", "timeout", "cancel-setup", "longrun"}
 			modes := []string{"users", "constant", "staged", "ramp", "gaussian", "custom", "file", "filespan"}
 			var cs []core.Case
 			for i := 0; i < n; i++ {
@@ -147,6 +147,14 @@ func init() {
 					p.SetupFaultPos = r.IntN(ns + 1)
 					if r.IntN(2) == 0 {
 						p.SetupFault = 1 + r.IntN(engine.NumBehaviours-1)
+					}
+				case "longrun":
+					// the run lasts longer than its completion timeout; the bodies in flight at the end finish
+					// 150 ms later, well inside the timeout, which starts when triggering stops
+					p.Spec.CompletionMS = 1400
+					p.Spec.MaxDurationMS = 1700
+					if mode == "file" || mode == "filespan" {
+						p.Spec.YAML = strings.Replace(p.Spec.YAML, "max-duration: 60s", "max-duration: 1700ms", 1)
 					}
 				case "timeout":
 					p.Spec.CompletionMS = 150 + r.IntN(100)
@@ -245,7 +253,7 @@ func c06Once(c *core.Case, o *core.Outcome, p c06Params, reg *scenarios.Scenario
 			for i := 0; i < plan.pos; i++ {
 				regc(i)
 			}
-			if p.Ending == "timeout" {
+			if p.Ending == "timeout" || (p.Ending == "longrun" && n%3 == 0) {
 				<-gate
 			}
 			if strings.Contains(p.Desc, "mode=filespan") {
@@ -261,6 +269,9 @@ func c06Once(c *core.Case, o *core.Outcome, p c06Params, reg *scenarios.Scenario
 				regc(i)
 			}
 		}
+	}
+	if p.Ending == "longrun" {
+		go func() { time.Sleep(1850 * time.Millisecond); release() }()
 	}
 	done := make(chan *engine.Run, 1)
 	go func() { done <- engine.Execute(ctx, p.Spec, l, scenario, &engine.Hooks{Registry: reg}, nil) }()
